@@ -65,6 +65,7 @@ func TestCheck(t *testing.T) {
 	table := map[string]*row{}
 	classTable := map[string]map[string]*row{}
 	reenc := map[string]bool{}
+	sampled := map[string]bool{}
 	for ci, c := range consumers {
 		inst := fmt.Sprintf("%s#%d", c.name, ci)
 		b := bulk
@@ -112,6 +113,11 @@ func TestCheck(t *testing.T) {
 			if strings.HasPrefix(o.detail, "PANIC") {
 				r.Violation("C17/"+c.name+"/panic/"+strings.Fields(o.detail)[2], o.detail, map[string]any{"consumer": c.name, "class": v.class, "variant": v.name, "token": v.token})
 			}
+			if v.class == "key-injected" && !sampled[c.name] {
+				sampled[c.name] = true
+				r.Sample(map[string]any{"consumer": c.name, "instance": c.kind, "class": v.class, "variant": v.name, "classified": v.verdict.String(),
+					"token": short(v.token), "accepted": o.accepted, "answer": o.detail})
+			}
 			if !o.accepted {
 				rw.rejected++
 				cr.rejected++
@@ -147,9 +153,6 @@ func TestCheck(t *testing.T) {
 					reenc[c.name+": "+v.class+"/"+v.name] = true
 				}
 			}
-		}
-		if len(vs) > 3 {
-			r.Sample(map[string]any{"consumer": c.name, "instance": c.kind, "variants": len(vs), "example_hostile": vs[1].class + ": " + vs[1].name})
 		}
 	}
 	// evidence: per consumer and per (consumer, class)
